@@ -270,6 +270,31 @@ pub fn run(ctx: &Ctx) -> i32 {
             st.class((tree.shape_key(&table), toks.iter().filter(|t| t.kind == TK::Comma).count()));
             call_stats(&toks, st);
             let ex = expect(&tree, &table);
+            // The meaning of a call must not depend on what the thread has parsed before: every
+            // other case is preceded by texts in call form that are rejected half-way (a third
+            // argument, an illegal character or the end of the text behind a comma).
+            if i % 2 == 1 {
+                let bins: Vec<&str> = table.iter().filter(|o| o.bin.is_some()).map(|o| o.name).collect();
+                let op = *rng.pick(&bins);
+                let inner = *rng.pick(&bins);
+                let bad = match rng.below(5) {
+                    0 => format!("{op}(1, 2, 3)"),
+                    1 => format!("{op}(1, $)"),
+                    2 => format!("{op}(x, {inner}(1, 2"),
+                    3 => format!("({op}(x, y, {inner}(1, 2)))"),
+                    _ => {
+                        let cut = text.char_indices().filter(|(_, c)| *c == ',').map(|x| x.0).last();
+                        match cut {
+                            Some(c) => format!("{} $", &text[..=c]),
+                            None => format!("{op}(1, 2, 3)"),
+                        }
+                    }
+                };
+                let rejected = crate::core::catch(|| (crate::sym::FX::parse(&bad).is_err(), crate::sym::DX::parse(&bad).is_err(), crate::sym::FX::parse_wo_compile(&bad).is_err()));
+                if rejected == Ok((true, true, true)) {
+                    st.bump("cases_preceded_by_a_rejected_call_text");
+                }
+            }
             if let Some((path, m)) = first_mismatch_with(&ex, &text, PATHS) {
                 let t2 = table.clone();
                 let rr = move |t: &Tree, _tb: &Table| {
@@ -288,9 +313,10 @@ pub fn run(ctx: &Ctx) -> i32 {
         }
     });
     let mut report = Report::new(
-        "(1) exhaustive: every binary-tree shape with 1..3 operators over {alphabetic mx, dual +, %} x every operator assignment x every non-empty subset of nodes written as calls x {bare, under a unary function} x 4 priority/flag tables; (2) random trees (2..70 operands) over random tables with a random subset of binary nodes written in call form (symbolic and dual operators included), redundant parentheses, unary juxtaposition; judged on FlatEx (folded/unfolded), DeepEx and deep->flat against the reference tree; (3) on the shipped float and value tables the call text is compared with its literal expansion ((a) op (b)) - same acceptance, same variables, bit-identical values. Call positions are measured from the rendered tokens. distinct_nontrivial = enumerated cases + distinct (tree class, number of calls) + distinct shipped-table texts.",
+        "(1) exhaustive: every binary-tree shape with 1..3 operators over {alphabetic mx, dual +, %} x every operator assignment x every non-empty subset of nodes written as calls x {bare, under a unary function} x 4 priority/flag tables; (2) random trees (2..70 operands) over random tables with a random subset of binary nodes written in call form (symbolic and dual operators included), redundant parentheses, unary juxtaposition; judged on FlatEx (folded/unfolded), DeepEx and deep->flat against the reference tree, every other case after the same thread has parsed a call text that is rejected half-way; (3) on the shipped float and value tables the call text is compared with its literal expansion ((a) op (b)) - same acceptance, same variables, bit-identical values. Call positions are measured from the rendered tokens. distinct_nontrivial = enumerated cases + distinct (tree class, number of calls) + distinct shipped-table texts.",
     )
     .require("exhaustive_cases", 1000)
+    .require("cases_preceded_by_a_rejected_call_text", 5000)
     .require("calls_nested_in_second_argument", 500)
     .require("calls_nested_in_first_argument", 500)
     .require("calls_inside_plain_parentheses", 100)
